@@ -329,7 +329,10 @@ func (cc *grpcClientConn) Receive(msg any) error {
 	if cc.responseHeader.Get(grpcHeaderStatus) != "" {
 		// We got what gRPC calls a trailers-only response, which puts the trailing
 		// metadata (including errors) into HTTP headers. validateResponse has
-		// already extracted the error.
+		// already extracted the error. The stream is over either way, so mark it
+		// finished: later Sends must fail with an error wrapping io.EOF rather
+		// than depend on the HTTP client to close the request body.
+		cc.duplexCall.SetError(err)
 		return err
 	}
 	// See if the server sent an explicit error in the HTTP or gRPC-Web trailers.
